@@ -427,5 +427,5 @@ func genSched(ctx *Ctx, emit func(any, string)) {
 
 func init() {
 	register(&Family{Name: "sched", Gen: genSched, Run: runSched,
-		Rule: "exhaustive: 2 goroutines x 1 mutator each (every ordered pair of an 11-call alphabet over Push/Pop/Insert/Remove/Replace/Swap/Reverse/Reset) x stacks of length 0..3 x LIFO/FIFO x capacity none/len+1 x ALL interleavings of the four actions (unlocked wrapper part, critical section); random: 2-3 goroutines x 1-3 mutators with random arguments and one random complete interleaving each. The interleaving is enforced on the real package by a cooperative scheduler through the verifPoint hook in lock(). Observed: each goroutine's return values, the final slots, any panic, deadlock (watchdog), loss of the configuration slot. non-trivial = >=2 goroutines and >=2 calls"})
+		Rule: "exhaustive: 2 goroutines x 1 mutator each (every ordered pair of an 11-call alphabet over Push/Pop/Insert/Remove/Replace/Swap/Reverse/Reset) x stacks of length 0..3 x LIFO/FIFO x capacity none/len+1 x ALL interleavings of the four actions (unlocked wrapper part, critical section); the pairs starting with a Push also with an accept-everything push policy installed, whose closure is a scheduling point exactly when it finds the stack lock not held; random: 2-3 goroutines x 1-3 mutators with random arguments and one random complete interleaving each (30% with that policy). The interleaving is enforced on the real package by a cooperative scheduler through the verifPoint hook in lock(). Observed: each goroutine's return values, the final slots, any panic, deadlock (watchdog), loss of the configuration slot. non-trivial = >=2 goroutines and >=2 calls"})
 }
